@@ -171,12 +171,17 @@ func runCrashCase(rep *vevid.Report, f *vevid.Flags, c *Case) {
 	// every crash image is evaluated twice: reopen + rollup, and reopen + one more flush into the first source family
 	// + rollup (the interrupted rollup's files then meet a new one in the same job)
 	type variant struct {
-		cp    *crashPoint
-		flush bool
+		cp      *crashPoint
+		flush   bool
+		reverse bool // the repeated rollup visits the source families in descending order (a sibling family of the day first)
+		sibling bool // a new file goes into ANOTHER hour of the position's day (same source store, same target families); that family is rolled up first, then everything
 	}
 	var variants []variant
 	for _, cp := range rec.points {
-		variants = append(variants, variant{cp, false}, variant{cp, true})
+		variants = append(variants, variant{cp, false, false, false}, variant{cp, true, false, false}, variant{cp, true, false, true})
+		if len(cp.fams) > 1 {
+			variants = append(variants, variant{cp, false, true, false}, variant{cp, true, true, false})
+		}
 	}
 	for _, vr := range variants {
 		cp, withFlush := vr.cp, vr.flush
@@ -204,9 +209,22 @@ func runCrashCase(rep *vevid.Report, f *vevid.Flags, c *Case) {
 			rw.m.fams[k] = true
 		}
 		rw.m.nBatch = cp.nBat
+		rw.reverse = vr.reverse
 		tag := "reopen, rollup"
 		if withFlush {
 			tag = "reopen, flush, rollup"
+		}
+		if vr.reverse {
+			tag += " (source families in descending order)"
+		}
+		if vr.sibling {
+			tag = "reopen, flush into another hour of the day, rollup of that hour, rollup"
+			// an hour of the position's day that is neither the position's nor its neighbour's
+			sib := c.Pos.start() + 2*msHour
+			if c.Pos.H >= 22 {
+				sib = c.Pos.start() - 2*msHour
+			}
+			rw.forceFam = sib
 		}
 		func() {
 			defer func() {
@@ -251,6 +269,14 @@ func runCrashCase(rep *vevid.Report, f *vevid.Flags, c *Case) {
 					rep.Violate(vevid.Violation{Clause: "crash/step-error", Scenario: scen, Site: site, Detail: fmt.Sprintf("%s: flush after recovery: %v", where, err), Replay: c})
 					return
 				}
+			}
+			if vr.sibling {
+				rw.onlyFams = []int64{rw.forceFam}
+				if err := rw.rollup(); err != nil {
+					rep.Violate(vevid.Violation{Clause: "crash/step-error", Scenario: scen, Site: site, Detail: fmt.Sprintf("%s: rollup of the sibling hour after recovery: %v", where, err), Replay: c})
+					return
+				}
+				rw.onlyFams = nil
 			}
 			if err := rw.rollup(); err != nil {
 				rep.Violate(vevid.Violation{Clause: "crash/step-error", Scenario: scen, Site: site, Detail: fmt.Sprintf("%s: rollup after recovery: %v", where, err), Replay: c})
